@@ -1,9 +1,10 @@
 (* E2E/Props_E2E.v — the end-to-end statements of C01 across the three areas (statement + `exact` only). *)
 From Coq Require Import List NArith ZArith.
 From FlacBase Require Import Res.
-From FlacCodec Require Ast Stream Header Enc Enc_proofs.
+From FlacCodec Require Ast Stream Header Wf Enc Enc_proofs.
 From FlacWriters Require Import Meta Params Finalize Writers.
-From FlacE2E Require Import Bridge E2E.
+From FlacWriters Require Import Params_proofs.
+From FlacE2E Require Import Bridge E2E SampleE2E.
 Import ListNotations.
 Open Scope N_scope.
 
@@ -45,7 +46,26 @@ Theorem C01_end_to_end_sample_writer : forall o L md5, (forall l, length (md5 l)
        Some (conv_si (f_si f), map FlacCodec.Stream.interleave_frame bl, FlacCodec.Stream.EndEof)).
 Proof. intros. eapply e2e_sample_writer; eauto. Qed.
 
+(* C01 for FlacSampleWriter on the samples themselves: well-formed options, samples within the bit depth, ANY chunking
+   of the writes, a run that finished — the file decodes (stream decoder model) to the STREAMINFO finalize wrote and to
+   frames whose concatenation is exactly the whole PCM frames of what was written (a trailing partial PCM frame is
+   dropped, as the writer documents) *)
+Theorem C01_end_to_end_samples : forall o L md5, (forall l, length (md5 l) = 16%nat) ->
+  forall p rate bps wo ch total w chunks f,
+  options_wf wo ->
+  sample_new p [] wo rate bps ch total = Ok w ->
+  sample_run (encB o L rate bps) md5 p w chunks = Ok f ->
+  forallb (FlacCodec.Wf.fits bps) (concat chunks) = true ->
+  N.of_nat (length (concat chunks)) < 2 ^ 36 ->
+  exists blocks,
+    FlacCodec.Stream.dec_stream (f_stream f) =
+      Some (conv_si (f_si f), map FlacCodec.Stream.interleave_frame blocks, FlacCodec.Stream.EndEof) /\
+    concat (map FlacCodec.Stream.interleave_frame blocks) =
+      firstn (N.to_nat ch * (length (concat chunks) / N.to_nat ch)) (concat chunks).
+Proof. intros. eapply e2e_sample_pcm; eauto. Qed.
+
 Print Assumptions C01_written_metadata_is_read.
+Print Assumptions C01_end_to_end_samples.
 Print Assumptions C01_end_to_end_encoder.
 Print Assumptions C01_end_to_end_sample_writer.
 
